@@ -12,12 +12,13 @@ extern "C" char *verif_env_value;
 typedef unsigned __int128 u128;
 static bool is_sp(uint8_t c) { return c == ' ' || (c >= 9 && c <= 13); }
 static bool is_dg(uint8_t c) { return c >= '0' && c <= '9'; }
-// symbolic NUL-terminated string of length exactly n <= LEN in an exactly sized heap object
+// symbolic NUL-terminated string of length exactly LEN in an exactly sized heap object (one query per length:
+// a symbolic allocation size makes the solver blow up)
 static char *any_cstring(size_t &n) {
-  n = nondet_u8(); VASSUME(n <= LEN);
-  char *s = (char *)__builtin_malloc(n + 1);
-  for (size_t i = 0; i < LEN; i++) if (i < n) { s[i] = (char)nondet_u8(); VASSUME(s[i] != 0); }
-  s[n] = 0;
+  n = LEN;
+  char *s = (char *)__builtin_malloc(LEN + 1);
+  for (size_t i = 0; i < LEN; i++) { s[i] = (char)nondet_u8(); VASSUME(s[i] != 0); }
+  s[LEN] = 0;
   return s;
 }
 // reference grammar: ws* digits+ unit?  -> exact count of system_clock ticks (ns), or rejection.
